@@ -130,6 +130,13 @@ CHECKS["C11"] = (
     "DESIGN.md §2 C11",
 )
 
+CHECKS["C12"] = (
+    "round-trip differential monitor on the real save/load (save -> load -> save -> load -> save in a private directory) + from-scratch re-evaluation of every population-level derived node and of trajectories from the saved parameters only + prior-mode check of population variables after real short fits",
+    "Held on every model observed (all 7 kinds x dimension 1-5 x sources 0-2 x noise x feature namings x instance names != kind x fitted / hand-written / quick-start forms). Exploration.",
+    "Trusts vf/stateharness.scratch_eval for the derived nodes and JSON parsing for the file comparison (numbers to single precision, structure exactly).",
+    "DESIGN.md §2 C12",
+)
+
 NOT_YET = {}
 
 QUICK_BASELINE = (
